@@ -274,6 +274,17 @@ def b_kwonly(tok, *, flag=False, level=1):
     return [tok, flag, level]
 
 
+CURRENT_CONTEXT_MARK: List[Any] = [None]   # mark of the context object of the delivery being served (set by the node)
+
+
+def b_whoami(tok, ctx):
+    """Takes the per-request context.  The very same function object is published twice: as ``whoami`` with the
+    context injected under the name ``ctx``, and as ``whoami_explicit`` without context, where ``ctx`` is an ordinary
+    parameter the caller has to pass."""
+    mark = getattr(ctx, 'mark', None)
+    return [tok, mark if isinstance(mark, str) else None]
+
+
 def b_explode(tok):
     """Never reached: the validator attached to this method fails with an ordinary exception (not a ValidationError)."""
     return tok
@@ -295,7 +306,7 @@ BODIES: Dict[str, Callable[..., Any]] = {
     'echo': b_echo, 'add': b_add, 'none': b_none, 'pair': b_pair,
     'fail_proto': b_fail_proto, 'fail_exc': b_fail_exc, 'slow': b_slow, 'op_ab': b_op_ab, 'op_ba': b_op_ba, 'typed': b_typed,
     'typed_default': b_typed_default, 'vecho': b_vecho, 'fail_typed': b_fail_typed, 'mixed_keys': b_mixed_keys,
-    'single': b_single, 'explode': b_explode, 'kwonly': b_kwonly,
+    'single': b_single, 'explode': b_explode, 'kwonly': b_kwonly, 'whoami': b_whoami,
 }
 SIGNATURES: Dict[str, inspect.Signature] = {name: inspect.signature(fn) for name, fn in BODIES.items()}
 
@@ -345,13 +356,20 @@ class Service:
             self.is_coro[name] = coro
         for name in VIEW_METHODS:
             self.is_coro[name] = flavour != 'sync'
+        self.is_coro['whoami_explicit'] = self.is_coro['whoami']
 
     # -- wrappers ----------------------------------------------------------------------------------
     def _enter(self, name: str, args: Tuple[Any, ...], kwargs: Dict[str, Any]) -> str:
         bound = SIGNATURES[name].bind(*args, **kwargs)
         tok = bound.arguments.get('tok')
-        self.world.rec(self.node, 'method.enter', method=name, tok=tok,
-                       args={k: v for k, v in bound.arguments.items() if k != 'tok'})
+        shown = {k: v for k, v in bound.arguments.items() if k != 'tok'}
+        if name == 'whoami':
+            # one function, two publications: with an injected context object, or with ``ctx`` passed by the caller
+            if isinstance(shown.get('ctx'), (str, int, dict, list)):
+                name = 'whoami_explicit'
+            else:
+                shown.pop('ctx', None)
+        self.world.rec(self.node, 'method.enter', method=name, tok=tok, args=shown)
         return tok if isinstance(tok, str) else repr(tok)
 
     def _wrap_sync(self, name: str, body: Callable[..., Any]) -> Callable[..., Any]:
@@ -452,20 +470,35 @@ class Service:
                     validator = vjs.JsonSchemaValidator(schema=DEFAULT_SCHEMA)
                 schema = VALIDATED[name][0]
                 method = validator.validate(method, schema=schema) if schema is not None else validator.validate(method)
+            if name == 'whoami':
+                reg.add(method, name='whoami', context='ctx')
+                reg.add(method, name='whoami_explicit')      # the same function object, context-less
+                continue
             reg.add(method, name=name)
         if names is None or 'vecho' in names:
-            reg.view(self._view_class())
+            # half of the services publish the view with a context whose name is also a parameter name of its method
+            # (the context of a view goes to the constructor; the method parameter stays the caller's)
+            if self.world.ch.flag(1, 2, 'svc.view_context'):
+                reg.view(self._view_class(takes_context=True), context='value')
+            else:
+                reg.view(self._view_class())
         return reg
 
-    def _view_class(self) -> Any:
+    def _view_class(self, takes_context: bool = False) -> Any:
         """A class-based view without context: per-call state lives on ``self`` between its suspension points."""
         world, node, service = self.world, self.node, self
         is_async = self.flavour != 'sync'
 
-        class SvcView(pjrpc.server.ViewMixin):
-            def __init__(self) -> None:
-                super().__init__()
-                self._seen: Any = None
+        if takes_context:
+            class SvcView(pjrpc.server.ViewMixin):
+                def __init__(self, context: Any) -> None:
+                    super().__init__()
+                    self._seen: Any = None
+        else:
+            class SvcView(pjrpc.server.ViewMixin):  # type: ignore[no-redef]
+                def __init__(self) -> None:          # a view registered without context has a constructor of its own
+                    super().__init__()
+                    self._seen: Any = None
 
         if is_async:
             async def vecho(self, tok, value=_MISSING):  # type: ignore[no-untyped-def]
